@@ -28,6 +28,7 @@ import (
 type gojaVM struct {
 	names []string
 	vals  map[string]Value
+	cell  *Value
 }
 
 type gojaObj struct{ vm *gojaVM }
@@ -37,12 +38,15 @@ type gojaGlobalRef struct{ orig Value }
 
 const gojaPkg = "github.com/dop251/goja."
 
-func gojaVMOf(v Value) *gojaVM {
+func gojaVMOf(e *Exec, v Value, write bool) *gojaVM {
+	e.parAccessObj(v, write) // a VM used by two threads without synchronisation is a data race
 	p, ok := v.(PtrV).single()
 	if !ok {
 		panic(unsupported("goja model: VM through nil/multi pointer"))
 	}
-	return (*p).(OpaqueV).x.(*gojaVM)
+	vm := (*p).(OpaqueV).x.(*gojaVM)
+	vm.cell = p
+	return vm
 }
 
 func newCellPtr(x interface{}) PtrV {
@@ -61,7 +65,7 @@ func init() {
 		return newCellPtr(vm)
 	}
 	externals["(*"+gojaPkg+"Runtime).Set"] = func(e *Exec, _ *frame, _ token.Pos, _ *ssa.Function, a []Value) Value {
-		vm := gojaVMOf(a[0])
+		vm := gojaVMOf(e, a[0], true)
 		name := e.concStr(a[1], "goja Set name")
 		if _, ok := vm.vals[name]; !ok {
 			vm.names = append(vm.names, name)
@@ -79,7 +83,7 @@ func init() {
 		return IfaceV{}
 	}
 	externals["(*"+gojaPkg+"Runtime).Get"] = func(e *Exec, _ *frame, _ token.Pos, fn *ssa.Function, a []Value) Value {
-		vm := gojaVMOf(a[0])
+		vm := gojaVMOf(e, a[0], false)
 		name := e.concStr(a[1], "goja Get name")
 		v, ok := vm.vals[name]
 		if !ok {
@@ -88,11 +92,14 @@ func init() {
 		return IfaceV{t: rtypeMarker, v: OpaqueV{gojaGlobalRef{v}}}
 	}
 	externals["(*"+gojaPkg+"Runtime).GlobalObject"] = func(e *Exec, _ *frame, _ token.Pos, _ *ssa.Function, a []Value) Value {
-		return newCellPtr(&gojaObj{gojaVMOf(a[0])})
+		return newCellPtr(&gojaObj{gojaVMOf(e, a[0], false)})
 	}
 	externals["(*"+gojaPkg+"Object).Delete"] = func(e *Exec, _ *frame, _ token.Pos, _ *ssa.Function, a []Value) Value {
 		p, _ := a[0].(PtrV).single()
 		o := (*p).(OpaqueV).x.(*gojaObj)
+		if e.parActive() && o.vm.cell != nil {
+			e.parAccessCell(o.vm.cell, true)
+		}
 		name := e.concStr(a[1], "goja Delete name")
 		if _, ok := o.vm.vals[name]; ok {
 			delete(o.vm.vals, name)
@@ -113,7 +120,7 @@ func init() {
 		return TupleV{newCellPtr(&gojaProg{src}), IfaceV{}}
 	}
 	externals["(*"+gojaPkg+"Runtime).RunProgram"] = func(e *Exec, _ *frame, _ token.Pos, _ *ssa.Function, a []Value) Value {
-		vm := gojaVMOf(a[0])
+		vm := gojaVMOf(e, a[0], true)
 		p, _ := a[1].(PtrV).single()
 		prog := (*p).(OpaqueV).x.(*gojaProg)
 		res := ""
